@@ -158,6 +158,12 @@ def main():
     outdir = os.path.join(V, "notes", "anchor_cov")
     os.makedirs(outdir, exist_ok=True)
     tot_e = tot_h = 0
+    dump = {}
+    for path, qs in targets.items():
+        for q, (lo, hi, ex, lines) in qs.items():
+            dump.setdefault(os.path.relpath(path, REPO), {})[q] = {"lines": [lo, hi], "executable": sorted(ex), "hit": sorted(ex & hit[path])}
+    with open(os.path.join(outdir, f"{pid}.json"), "w") as jf:
+        json.dump(dump, jf)
     with open(os.path.join(outdir, f"{pid}.txt"), "w") as out:
         out.write(f"# {pid}: statement coverage of anchored functions by a strided sample ({n_cases} cases, tier {tier}) of the check's families\n")
         for path, qs in targets.items():
